@@ -239,6 +239,11 @@ def build_run_args(spec):
         psi0 = [1.0] + [0.0] * (p[1] - 1)
     elif p[0] == "rand":
         r = np.random.default_rng(p[2]); psi0 = r.normal(size=p[1]) + 1j * r.normal(size=p[1]); psi0 /= np.linalg.norm(psi0)
+    elif p[0] == "tiny":        # a basis state with admixtures of amplitude 1e-6 .. 1e-8: outcome probabilities of 1e-12 .. 1e-16 are still probabilities
+        r = np.random.default_rng(p[2]); psi0 = np.zeros(p[1], dtype=complex); psi0[0] = 1
+        for k in range(1, p[1]):
+            psi0[k] = 10.0 ** r.uniform(-8, -6) * np.exp(1j * r.uniform(0, 6.28))
+        psi0 /= np.linalg.norm(psi0)
     else:
         psi0 = None
     q = spec["params"]
